@@ -58,4 +58,10 @@ let () =
       let rs = run_script bounded db_empty steps in
       let outs = List.filter_map show rs in
       Printf.printf "%s\t%s\n" id (String.concat "|" outs)
+    | id :: "X" :: k1 :: k2 :: _ ->
+      let a = hb k1 and b = hb k2 in
+      let e1 = to_index_key a and e2 = to_index_key b in
+      let sgn = (match bytes_cmp e1 e2 with Eq -> "0" | Lt -> "-1" | Gt -> "1") in
+      Printf.printf "%s\t%s %s %s %s\n" id (hex_of_bytes e1) (hex_of_bytes (from_index_key e1)) sgn
+        (if is_prefix e1 e2 then "1" else "0")
     | _ -> ())
